@@ -199,6 +199,17 @@ CLAIMED = {
          'resamples are observed through harness-side wrappers (not assumed); eval_dual_bootstrap (three covariance stack) is covered '
          'through _internal_cv and reproducibility only.',
          'DESIGN.md section 7, C04'),
+    'C18': ('Coq proofs over R: double centring inverts to the dissimilarities; any patterns with Gram matrix c*G have squared distances '
+         'c*D (so exact-signal data reproduce signal * model RDM); design lists every condition once per partition; noise additive with '
+         'sqrt scaling + in-Coq correspondence of make_design / make_dataset (second moment, assembly with recorded draws)',
+         'Theorems: G_ii + G_jj - 2 G_ij = D_ij for every symmetric zero-diagonal D with G = -1/2 H D H; hence for ALL pattern matrices U '
+         'with U U\' = c G: |u_i - u_j|^2 = c D_ij; make_design: observation p*n_cond + c is condition c of partition p, lengths n_part*n_cond; '
+         'data(v) = data(0) + sqrt(v) E row by row. Correspondence (exact Q, in Coq): make_design; for exact-signal zero-noise datasets every '
+         'observation equals its condition pattern, the Gram matrix of the patterns equals signal * n_channel * G of the model RDM, and '
+         'the model-side and calc_rdm-side squared-Euclidean RDMs equal signal * RDM; for noisy datasets data = noise-free data + '
+         'sqrt(noise) * Ltrial (N Lchannel) with the recorded normal draws N. Spec oracles: descriptors, same / fresh signal.',
+         'make_signal itself (random draw, LDL) is observed, not modelled; normal quantiles and Cholesky factors come from SciPy / NumPy.',
+         'DESIGN.md section 7, C18'),
 }
 NA_REASON = 'check not built yet in this round (work in progress; see DESIGN.md section 7)'
 
